@@ -28,11 +28,27 @@ EXPLANATION = (
     "decryption and delivery; (6) the in-place update takes S, D and the SDMF salt from the same verinfo positions "
     "and computes the start segment with the same formula as Publish; (7) Publish.update lays the patched file out "
     "for the data length of the version whose shares it patches (the verinfo it is given), not for a cached node "
-    "size. "
+    "size; (8) segment ranges, decided by evaluating the functions' own statements (CFG interpreter over ints, no "
+    "package code is imported or run; pyutil.mathutil div_ceil/next_multiple are modelled by their definitions) on "
+    "boundary inputs - sizes and offsets 0, 1, 2, S/2, mS-1, mS, mS+1 (m = 1..4), 2S+777, 3S+500, S = 131073 (k=3) and "
+    "131072 (k=4): Publish.setup_encoding_parameters pushes exactly the segments offset // S .. div_ceil(E, S) - 1 "
+    "that hold the bytes the uploadable supplies (E = data.get_size(), also E = D for a full publish and SDMF), and "
+    "Retrieve._setup_encoding_parameters fetches exactly the segments of [offset, offset + size); (9) "
+    "MutableFileVersion._update -> _do_update_update asks the servermap update for the old segments "
+    "(offset // S, (offset + len - 1) // S) that Publish pushes first and last whenever the write ends before the "
+    "old end of file (writes of len >= 1); (10) Retrieve._decode_blocks gives the decoder blocks and share numbers "
+    "that are the same positional selection (same slices, no reordering of one list by value) of one iteration over "
+    "the (shnum, block) pairs, so the result does not depend on the order the servers answered in, and the tail "
+    "decoder is used exactly for the last segment; (11) every old segment the update asks for exists in the version "
+    "being updated (FINDING on the unmodified tree: an append at offset == size where size is 0 or a multiple of S "
+    "asks for segment number num_segments). "
     "Undecided: offset/length stitching of TransformingUploadable.read, Retrieve._set_segment head/tail trimming, "
-    "block-hash-tree patching in Publish.update, zfec and AES algebra, server response ordering.")
+    "block-hash-tree patching in Publish.update, zfec and AES algebra, zero-length updates, sizes beyond 4 segments "
+    "for the evaluated ranges (the arithmetic has no size-dependent branch other than the ones the grid crosses).")
 TECHNIQUE = ("static analysis: polynomial normal forms of the size/offset formulas compared across writer and reader, "
-             "folded struct format tables with field-role sequences, version-dominated CFG branches")
+             "folded struct format tables with field-role sequences, version-dominated CFG branches, bounded concrete "
+             "evaluation of the segment-range arithmetic by a CFG interpreter over boundary inputs, order provenance "
+             "of the decoder's two input sequences")
 
 LAY = "mutable.layout"
 WP = LAY + ":MDMFSlotWriteProxy"
@@ -1116,6 +1132,424 @@ def run(ctx: Context):
                       "extended the file: the next update truncates the layout and every share fails validation)" % (
                           form, ps[3], pos["D"]))
 
+    # ---- 8. segment ranges, by bounded concrete evaluation ------------------
+    S3 = None
+    with ctx.rule("C09.8", "R6", "the segments a publish pushes are exactly those holding the bytes its uploadable "
+                  "supplies (first = offset // S, last = div_ceil(data.get_size(), S) - 1), and a ranged read fetches "
+                  "exactly the segments holding [offset, offset + size); decided by evaluating the functions' own "
+                  "arithmetic over boundary inputs", expected=4) as r:
+        pmod = idx.module("allmydata.mutable.publish")
+        mdmf = folder.name("MDMF_VERSION", pmod, None)
+        maxseg = folder.name("DEFAULT_MUTABLE_MAX_SEGMENT_SIZE", pmod, None)
+        pubs = idx.func(PUB + ".setup_encoding_parameters")
+        off_p = first_positional_params(pubs)[0]
+        PT = ("self.segment_size", "self.num_segments", "self.starting_segment", "self.end_segment")
+        sites = {a: _last_store(pubs, a) for a in ("self.starting_segment", "self.end_segment")}
+        r.site(pubs, sites["self.starting_segment"], "first pushed segment")
+        r.site(pubs, sites["self.end_segment"], "last pushed segment")
+        bad = {}
+        runs = 0
+        for K in (3, 4):
+            S = _div_ceil(maxseg, K) * K
+            if K == 3:
+                S3 = S
+            pts = _boundary_points(S)
+            for D in (pts if K == 3 else pts[::3]):
+                for E in [x for x in pts if x <= D]:
+                    offs = {0} if E == D else set()
+                    if E >= 1:
+                        offs |= {E - 1, ((E - 1) // S) * S, max(0, E - S - 1)}
+                    for off in sorted(offs):
+                        sim = _Sim(idx, track=PT)
+                        heap = {"self": {"datalength": D, "required_shares": K, "total_shares": 10, "_version": mdmf,
+                                         "data": _Ref("data")}, "data": {"get_size()": E}}
+                        outs = sim.run(pubs, {"self": _Ref("self"), off_p: off}, heap)
+                        runs += 1
+                        what = "data length %d, uploadable size %d, offset %d, k=%d" % (D, E, off, K)
+                        if not outs:
+                            bad.setdefault("self.end_segment", "raises for %s" % what)
+                        for (_ret, _fr, hp) in outs:
+                            me = hp["self"]
+                            got = {a: me.get(a.split(".", 1)[1], UNK) for a in PT}
+                            if any(v is UNK or not isinstance(v, int) for v in got.values()):
+                                raise AnalysisError("cannot evaluate %s of %s for %s" % (
+                                    sorted(a for a, v in got.items() if v is UNK or not isinstance(v, int)), short(pubs), what))
+                            s_ = got["self.segment_size"]
+                            if s_ <= 0:
+                                raise AnalysisError("segment size evaluates to %d for %s" % (s_, what))
+                            want = {"self.starting_segment": off // s_, "self.end_segment": _div_ceil(E, s_) - 1}
+                            for a, w in want.items():
+                                if got[a] != w:
+                                    bad.setdefault(a, "for %s (S=%d) %s is %d; the uploadable supplies the bytes of "
+                                                   "segments %d..%d only%s" % (
+                                                       what, s_, a, got[a], want["self.starting_segment"],
+                                                       want["self.end_segment"],
+                                                       " - a segment beyond them is filled with the old end segment's "
+                                                       "bytes and overwrites the following segment"
+                                                       if a == "self.end_segment" and got[a] > w else ""))
+        sdmf = folder.name("SDMF_VERSION", pmod, None)
+        for D in (1, 2, 3, 1000, 131072, 131073, 300000):      # SDMF: one segment, always a full publish
+            sim = _Sim(idx, track=PT)
+            heap = {"self": {"datalength": D, "required_shares": 3, "total_shares": 10, "_version": sdmf,
+                             "data": _Ref("data")}, "data": {"get_size()": D}}
+            outs = sim.run(pubs, {"self": _Ref("self"), off_p: 0}, heap)
+            runs += 1
+            if not outs:
+                bad.setdefault("self.end_segment", "raises for a %d-byte SDMF publish" % D)
+            for (_ret, _fr, hp) in outs:
+                got = (hp["self"].get("starting_segment", UNK), hp["self"].get("end_segment", UNK))
+                if UNK in got:
+                    raise AnalysisError("cannot evaluate the segment range of a %d-byte SDMF publish" % D)
+                if got != (0, 0):
+                    bad.setdefault("self.end_segment", "a %d-byte SDMF publish pushes segments %s..%s, the file is the "
+                                   "single segment 0" % (D, got[0], got[1]))
+        r.count(runs)
+        for a, msg in sorted(bad.items()):
+            r.violation(pubs, pubs.loc(sites[a]), msg)
+
+        rets = idx.func(RET + "._setup_encoding_parameters")
+        RT = ("self._segment_size", "self._num_segments", "self._start_segment", "self._last_segment")
+        rsites = {a: _last_store(rets, a) for a in ("self._start_segment", "self._last_segment")}
+        r.site(rets, rsites["self._start_segment"], "first fetched segment")
+        r.site(rets, rsites["self._last_segment"], "last fetched segment")
+        _need("the verinfo positions of C09.1", pos)
+        bad, runs = {}, 0
+        S = S3
+        pts = _boundary_points(S)
+        for D in [x for x in pts if x >= 1]:
+            for off in [x for x in pts if x < D]:
+                for size in sorted({1, D - off, S - off % S, min(D - off, S + 1)}):
+                    if size < 1 or off + size > D:
+                        continue
+                    sim = _Sim(idx, track=RT)
+                    heap = {"self": {"verinfo": _verinfo(pos, None, S, D, 3, 10), "_offset": off, "_read_length": size,
+                                     "_data_length": D}}
+                    outs = sim.run(rets, {"self": _Ref("self")}, heap)
+                    runs += 1
+                    what = "a read of [%d, %d) of a %d-byte file" % (off, off + size, D)
+                    if not outs:
+                        bad.setdefault("self._last_segment", "raises for %s" % what)
+                    for (_ret, _fr, hp) in outs:
+                        me = hp["self"]
+                        got = {a: me.get(a.split(".", 1)[1], UNK) for a in RT}
+                        if any(v is UNK or not isinstance(v, int) for v in got.values()):
+                            raise AnalysisError("cannot evaluate %s of %s for %s" % (
+                                sorted(a for a, v in got.items() if v is UNK or not isinstance(v, int)), short(rets), what))
+                        s_ = got["self._segment_size"]
+                        want = {"self._start_segment": off // s_, "self._last_segment": (off + size - 1) // s_}
+                        for a, w in want.items():
+                            if got[a] != w:
+                                bad.setdefault(a, "for %s (S=%d) %s is %d, the bytes are in segments %d..%d" % (
+                                    what, s_, a, got[a], want["self._start_segment"], want["self._last_segment"]))
+        r.count(runs)
+        for a, msg in sorted(bad.items()):
+            r.violation(rets, rets.loc(rsites[a]), msg)
+
+    # ---- 9. the old boundary segments an update fetches ---------------------
+    upd_obs = None
+    with ctx.rule("C09.9", "R6", "the in-place update fetches, as old boundary segments, the segments Publish pushes "
+                  "first and last: update_range = (offset // S, (offset + len - 1) // S) whenever the write ends "
+                  "before the old end of file", expected=1) as r:
+        _need("the verinfo positions of C09.1 and the segment size of C09.8", pos, S3)
+        S = S3
+        up = idx.func(MFV + "._update")
+        ups = first_positional_params(up)           # data, offset
+        if len(ups) < 2:
+            raise AnchorVanished("MutableFileVersion._update(data, offset) signature changed")
+        usm = idx.func(MFV + "._update_servermap")
+        if "update_range" not in usm.params:
+            raise AnchorVanished("_update_servermap no longer takes update_range")
+        ur_i = usm.params.index("update_range") - 1
+        pts = _boundary_points(S)
+        obs, runs = [], 0
+        for Z in pts:
+            for off in [x for x in pts if x <= Z]:
+                lens = {1, S + 1, 2 * S}
+                if Z > off:
+                    lens |= {Z - off, Z - off - 1, Z - off + 1}
+                if off % S or Z > off:
+                    lens |= {S - off % S, S - off % S + 1}
+                for L in sorted(x for x in lens if x >= 1):
+                    sim = _Sim(idx, observe={"_update_servermap"})
+                    heap = {"self": {"get_size()": Z, "_version": _verinfo(pos, None, S, Z, 3, 10), "is_mutable()": True},
+                            "data": {"get_size()": L}}
+                    sim.run(up, {"self": _Ref("self"), ups[0]: _Ref("data"), ups[1]: off}, heap)
+                    runs += 1
+                    for (ofn, call, args, kwargs) in sim.seen:
+                        v = kwargs.get("update_range", args[ur_i] if ur_i < len(args) else None)
+                        if v is None:
+                            continue
+                        if not (isinstance(v, tuple) and len(v) == 2 and all(isinstance(x, int) for x in v)):
+                            raise AnalysisError("cannot evaluate the update_range of %s for a %d-byte write at %d of a "
+                                                "%d-byte file: %r" % (short(ofn), L, off, Z, v))
+                        obs.append((Z, off, L, v[0], v[1], ofn, call))
+        r.count(runs)
+        if not obs:
+            raise AnchorVanished("no in-place update reaches _update_servermap(update_range=...) from _update")
+        upd_obs = obs
+        r.site(upd_obs[0][5], upd_obs[0][6], "update range (%d evaluated updates)" % len(upd_obs))
+        seen_bad = set()
+        for (Z, off, L, a, b, ofn, call) in upd_obs:
+            what = "a %d-byte write at offset %d of a %d-byte file (S=%d)" % (L, off, Z, S)
+            if a != off // S and "a" not in seen_bad:
+                seen_bad.add("a")
+                r.violation(ofn, ofn.loc(call), "for %s the old start segment fetched is %d, Publish starts pushing at "
+                            "segment %d and merges the old head of that segment" % (what, a, off // S))
+            if off + L < Z and b != (off + L - 1) // S and "b" not in seen_bad:
+                seen_bad.add("b")
+                r.violation(ofn, ofn.loc(call), "for %s the old end segment fetched is %d, the last segment Publish "
+                            "pushes is %d and its old tail must be merged back" % (what, b, (off + L - 1) // S))
+
+    # ---- 10. decoder inputs --------------------------------------------------
+    with ctx.rule("C09.10", "R1", "Retrieve._decode_blocks hands the decoder the blocks and their share numbers as "
+                  "parallel sequences (the same positional selection of one sequence of (shnum, block) pairs), and "
+                  "uses the tail decoder exactly for the last segment", expected=4) as r:
+        db = idx.func(RET + "._decode_blocks")
+        dbn = FlowNorm(db, depth=8)
+        par = _parents(db)
+        cfg = db.cfg()
+        decs = [(n, c) for n in cfg.nodes for c in node_calls(n) if call_tail(c) == "decode" and len(c.args) == 2
+                and not c.keywords]
+        if not decs:
+            raise AnchorVanished("_decode_blocks no longer calls decoder.decode(blocks, shareids)")
+        wantT = N().cmp(parse_expr("segnum + 1 == self._num_segments"), True)
+        wantF = N().cmp(parse_expr("segnum + 1 == self._num_segments"), False)
+        recvs = set()
+        for (n, c) in decs:
+            r.site(db, c, "decoder inputs")
+            blocks = _seq_shape(db, dbn, par, n, c.args[0])
+            ids = _seq_shape(db, dbn, par, n, c.args[1])
+            why = _not_parallel(ids, blocks)
+            if why:
+                r.violation(db, db.loc(c), "the share numbers %s and the blocks %s given to the decoder do not "
+                            "correspond position by position: %s; zfec then decodes each block as a different share "
+                            "and the segment is garbage whenever the answers did not arrive in that order" % (
+                                _shape_txt(ids), _shape_txt(blocks), why))
+            rp = attr_path(c.func.value) if isinstance(c.func, ast.Attribute) else None
+            recvs.add(rp)
+            want = {"self._tail_decoder": (wantT, "only for"), "self._segment_decoder": (wantF, "for every segment but")}.get(rp)
+            if want is None:
+                continue
+            r.site(db, c, "decoder selection")
+            for (t, w) in find_path_avoiding(cfg, lambda x, _n=n: x is _n,
+                                             gate_edge=lambda a, lab, _w=want[0]: dbn.edge_fact(a, lab) == _w):
+                r.violation(db, db.loc(c), "%s must be used %s the last segment (segnum + 1 == self._num_segments); "
+                            "path: %s" % (rp, want[1], w.brief()), w)
+        r.require({"self._tail_decoder", "self._segment_decoder"} <= recvs, db, db.loc(),
+                  "the decoders used are %s; the tail segment is encoded with its own parameters" % sorted(map(str, recvs)))
+
+    # ---- 11. the fetched boundary segments exist -----------------------------
+    with ctx.rule("C09.11", "R6", "every old boundary segment an in-place update asks the servers for exists in the "
+                  "version being updated (0 <= segnum < div_ceil(old size, S)); otherwise every share answers "
+                  "LayoutInvalid and the update fails", expected=1) as r:
+        _need("the evaluated update ranges of C09.9", upd_obs, S3)
+        S = S3
+        r.site(upd_obs[0][5], upd_obs[0][6], "fetched segments exist (%d evaluated updates)" % len(upd_obs))
+        r.count(len(upd_obs))
+        badobs = [o for o in upd_obs if not (0 <= o[3] < _div_ceil(o[0], S) and 0 <= o[4] < _div_ceil(o[0], S))]
+        if badobs:
+            aligned = [o for o in badobs if o[1] == o[0] and o[0] % S == 0]
+            pick = sorted(badobs, key=lambda o: (o in aligned, o[0] == 0, o[0], o[2]))[0]
+            Z, off, L, a, b, ofn, call = pick
+            nseg = _div_ceil(Z, S)
+            r.violation(ofn, ofn.loc(call), "a %d-byte write at offset %d of a %d-byte MDMF file (%d segments of %d "
+                        "bytes) asks the servers for the old segments (%d, %d); get_block_and_salt refuses segment "
+                        "numbers >= %d, so every share is reported corrupt and the update fails.  %d of %d evaluated "
+                        "in-place updates do this; %s" % (
+                            L, off, Z, nseg, S, a, b, nseg, len(badobs), len(upd_obs),
+                            "all of them are appends at offset == size where size is 0 or a multiple of the segment size"
+                            if len(aligned) == len(badobs) else
+                            "%d of them are not appends at a segment-aligned end of file" % (len(badobs) - len(aligned))))
+
+
+def _boundary_points(S):
+    pts = {0, 1, 2, S // 2, 2 * S + 777, 3 * S + 500}
+    for m in (1, 2, 3, 4):
+        pts |= {m * S - 1, m * S, m * S + 1}
+    return sorted(pts)
+
+
+def _verinfo(pos, salt, S, D, K, Nn):
+    v = [b"x"] * pos["len"]
+    v[0] = 1
+    v[pos["S"]], v[pos["D"]], v[pos["K"]], v[pos["N"]] = S, D, K, Nn
+    free = [i for i in range(1, pos["len"]) if i not in (pos["S"], pos["D"], pos["K"], pos["N"])]
+    v[free[1]] = salt                 # (seqnum, root hash, salt, ...): checked against the producers in C09.6
+    v[-1] = ()
+    return tuple(v)
+
+
+def _last_store(fn, path):
+    ns = [n for n in fn.cfg().nodes if path in node_stores(n)]
+    if not ns:
+        raise AnchorVanished("%s no longer stores %s" % (short(fn), path))
+    return ns[-1].ast
+
+
+def _parents(fn):
+    par = {}
+
+    def walk(n):
+        for c in ast.iter_child_nodes(n):
+            par[c] = n
+            if not isinstance(c, (ast.FunctionDef, ast.AsyncFunctionDef, ast.Lambda, ast.ClassDef)):
+                walk(c)
+    walk(fn.node)
+    return par
+
+
+def _component(expr, target):
+    """Which part of the iteration variable `target` the expression is: tuple index, 'whole', or None."""
+    if isinstance(target, (ast.Tuple, ast.List)):
+        for i, t in enumerate(target.elts):
+            if isinstance(t, ast.Name) and isinstance(expr, ast.Name) and expr.id == t.id:
+                return i
+        return None
+    if isinstance(target, ast.Name):
+        if isinstance(expr, ast.Name) and expr.id == target.id:
+            return "whole"
+        if isinstance(expr, ast.Subscript) and isinstance(expr.value, ast.Name) and expr.value.id == target.id \
+                and isinstance(expr.slice, ast.Constant) and isinstance(expr.slice.value, int):
+            return expr.slice.value
+    return None
+
+
+_VALUE_ORDER = ("sorted", "sort()")
+
+
+def _seq_shape(fn, fnorm, par, node, e, depth=0):
+    """(order transforms applied, source) of the sequence expression e at cfg node `node`.
+    source: ('loop', For stmt, holder, component, iter) | ('comp', iter form, conds, component) |
+    ('zipstar', form, component) | ('dictview', receiver form, component)."""
+    if depth > 12:
+        raise AnalysisError("sequence derivation too deep in %s" % short(fn))
+    cfg = fnorm.cfg
+    if isinstance(e, ast.Subscript) and isinstance(e.slice, ast.Slice):
+        tr, so = _seq_shape(fn, fnorm, par, node, e.value, depth + 1)
+        b = tuple(fnorm.norm(node, x) if x is not None else None for x in (e.slice.lower, e.slice.upper, e.slice.step))
+        return tr + [("slice",) + b], so
+    if isinstance(e, ast.Call):
+        t = call_tail(e)
+        if isinstance(e.func, ast.Name) and t in ("list", "tuple") and len(e.args) == 1 and not e.keywords:
+            return _seq_shape(fn, fnorm, par, node, e.args[0], depth + 1)
+        if isinstance(e.func, ast.Name) and t == "sorted" and e.args:
+            tr, so = _seq_shape(fn, fnorm, par, node, e.args[0], depth + 1)
+            return tr + [("sorted",)], so
+        if isinstance(e.func, ast.Name) and t == "reversed" and len(e.args) == 1:
+            tr, so = _seq_shape(fn, fnorm, par, node, e.args[0], depth + 1)
+            return tr + [("reversed",)], so
+        if isinstance(e.func, ast.Attribute) and t in ("keys", "values") and not e.args:
+            return [], ("dictview", fnorm.norm(node, e.func.value), 0 if t == "keys" else 1)
+    if isinstance(e, (ast.ListComp, ast.GeneratorExp)) and len(e.generators) == 1:
+        g = e.generators[0]
+        comp = _component(e.elt, g.target)
+        if comp is not None:
+            return [], ("comp", fnorm.norm(node, g.iter), tuple(norm_plain(c) for c in g.ifs), comp,
+                        isinstance(g.iter, ast.Call) and call_tail(g.iter) == "items")
+    if isinstance(e, ast.Name):
+        ds = fnorm.rd.get(node.id, {}).get(e.id)
+        if ds and len(ds) == 1 and min(ds) >= 0:
+            dn = cfg.nodes[min(ds)]
+            st = dn.ast
+            if dn.kind == "stmt" and isinstance(st, ast.Assign):
+                for t in st.targets:
+                    if isinstance(t, ast.Name) and t.id == e.id:
+                        v = st.value
+                        if (isinstance(v, ast.List) and not v.elts) or (
+                                isinstance(v, ast.Call) and call_tail(v) == "list" and not v.args):
+                            return _built(fn, fnorm, par, e.id)
+                        return _seq_shape(fn, fnorm, par, dn, v, depth + 1)
+                    if isinstance(t, (ast.Tuple, ast.List)):
+                        for i, x in enumerate(t.elts):
+                            if isinstance(x, ast.Name) and x.id == e.id:
+                                v = st.value
+                                if isinstance(v, ast.Call) and call_tail(v) == "zip" and len(v.args) == 1 \
+                                        and isinstance(v.args[0], ast.Starred):
+                                    return [], ("zipstar", fnorm.norm(dn, v.args[0].value), i)
+    raise AnalysisError("cannot decide how the sequence %s in %s is ordered" % (src(fn, e), short(fn)))
+
+
+def _built(fn, fnorm, par, name):
+    """A list that starts empty: its order is that of the single loop appending to it."""
+    tr, apps = [], []
+    for x in func_own_nodes(fn):
+        if isinstance(x, ast.Call) and isinstance(x.func, ast.Attribute) and isinstance(x.func.value, ast.Name) \
+                and x.func.value.id == name:
+            m = x.func.attr
+            if m == "append" and len(x.args) == 1:
+                apps.append(x)
+            elif m == "sort":
+                tr.append(("sort()",))
+            elif m == "reverse":
+                tr.append(("reversed",))
+            elif m in ("insert", "pop", "remove", "extend", "clear"):
+                raise AnalysisError("%s.%s(...) in %s: cannot decide the order of %s" % (name, m, short(fn), name))
+        if isinstance(x, (ast.Subscript,)) and isinstance(x.ctx, (ast.Store, ast.Del)) and isinstance(x.value, ast.Name) \
+                and x.value.id == name:
+            raise AnalysisError("element store into %s in %s: cannot decide its order" % (name, short(fn)))
+    if len(apps) != 1:
+        raise AnalysisError("%s is filled by %d append sites in %s" % (name, len(apps), short(fn)))
+    a = apps[0]
+    stmt = par.get(a)
+    holder = par.get(stmt)
+    loop = holder
+    while loop is not None and not isinstance(loop, (ast.For, ast.AsyncFor)):
+        loop = par.get(loop)
+    if not isinstance(stmt, ast.Expr) or loop is None:
+        raise AnalysisError("%s.append(...) is not a statement of a for loop in %s" % (name, short(fn)))
+    comp = _component(a.args[0], loop.target)
+    if comp is None:
+        raise AnalysisError("%s.append(%s): not a part of the loop variable of %s" % (name, src(fn, a.args[0]), short(fn)))
+    field = "body" if any(stmt is y for y in getattr(holder, "body", [])) else "orelse"
+    return tr, ("loop", loop, (holder, field), comp, isinstance(loop.iter, ast.Call) and call_tail(loop.iter) == "items")
+
+
+def _shape_txt(shape):
+    tr, so = shape
+    base = {"loop": "appended in a loop", "comp": "a comprehension over %s" % (so[1] if so[0] == "comp" else ""),
+            "zipstar": "unzipped from %s" % (so[1] if so[0] == "zipstar" else ""),
+            "dictview": "a view of %s" % (so[1] if so[0] == "dictview" else "")}[so[0]]
+    steps = []
+    for t in tr:
+        if t[0] == "slice":
+            steps.append("[%s:%s%s]" % (t[1] or "", t[2] or "", (":" + t[3]) if t[3] else ""))
+        else:
+            steps.append(t[0])
+    return "(%s%s)" % (base, (", then " + " ".join(steps)) if steps else "")
+
+
+def _not_parallel(ids, blocks):
+    """None when the two shapes are the same positional selection of one sequence of pairs, else the reason."""
+    (itr, iso), (btr, bso) = ids, blocks
+    for who, tr in (("share numbers", itr), ("blocks", btr)):
+        for t in tr:
+            if t[0] in _VALUE_ORDER:
+                return "the %s are reordered by value (%s) on their own" % (who, t[0])
+    if itr != btr:
+        return "the two lists are cut / reordered differently"
+    if iso[0] != bso[0]:
+        return "the two lists are built in different ways"
+    kind = iso[0]
+    if kind == "loop":
+        same = iso[1] is bso[1] and iso[2][0] is bso[2][0] and iso[2][1] == bso[2][1]
+        ic, bc, items = iso[3], bso[3], iso[4]
+    elif kind == "comp":
+        same = iso[1] == bso[1] and iso[2] == bso[2]
+        ic, bc, items = iso[3], bso[3], iso[4]
+    elif kind == "zipstar":
+        same = iso[1] == bso[1]
+        ic, bc, items = iso[2], bso[2], False
+    else:
+        same = iso[1] == bso[1]
+        ic, bc, items = iso[2], bso[2], True
+    if not same:
+        return "the two lists are not filled from the same iteration"
+    if ic == bc:
+        return "both lists take the same component (%s) of the pairs" % (ic,)
+    if items and (ic, bc) != (0, 1):
+        return "the share numbers are component %s and the blocks component %s of the (shnum, block) items" % (ic, bc)
+    return None
+
 
 def _poly_subst(poly, atom, repl):
     out = Poly()
@@ -1241,3 +1675,433 @@ def _reader_offsets(idx, r, po):
         if v is not None:
             out[v] = (fmt, keys, lo, hi, n)
     return out
+
+
+# ------------------------------------------------- bounded concrete evaluation
+# The segment-range arithmetic (which segments an update pushes / fetches / a read covers) is decided by evaluating
+# the anchored functions' own statements over boundary inputs with a small interpreter of their CFGs.  Nothing of the
+# package is imported or run: values are ints / tuples / abstract object references, everything else is UNKNOWN, an
+# UNKNOWN test forks, and an UNKNOWN result is an analysis error (fail closed), never a pass.
+class _Unknown(object):
+    def __repr__(self):
+        return "?"
+
+    def __deepcopy__(self, memo):
+        return self
+
+
+UNK = _Unknown()
+
+
+class _Ref(object):
+    """Reference to an abstract object of the simulated heap (heap[name] = {member: value, 'meth()': value})."""
+    def __init__(self, name):
+        self.name = name
+
+    def __eq__(self, other):
+        return isinstance(other, _Ref) and other.name == self.name
+
+    def __hash__(self):
+        return hash(("ref", self.name))
+
+    def __deepcopy__(self, memo):
+        return self
+
+    def __repr__(self):
+        return "<%s>" % self.name
+
+
+class _Dead(Exception):
+    """The simulated path raises."""
+
+
+def _has_unk(v):
+    if v is UNK:
+        return True
+    if isinstance(v, (tuple, list)):
+        return any(_has_unk(x) for x in v)
+    return False
+
+
+_BIN = {ast.Add: lambda a, b: a + b, ast.Sub: lambda a, b: a - b, ast.Mult: lambda a, b: a * b,
+        ast.FloorDiv: lambda a, b: a // b, ast.Mod: lambda a, b: a % b, ast.Pow: lambda a, b: a ** b,
+        ast.LShift: lambda a, b: a << b, ast.RShift: lambda a, b: a >> b, ast.BitOr: lambda a, b: a | b,
+        ast.BitAnd: lambda a, b: a & b}
+_CMP = {ast.Eq: lambda a, b: a == b, ast.NotEq: lambda a, b: a != b, ast.Lt: lambda a, b: a < b,
+        ast.LtE: lambda a, b: a <= b, ast.Gt: lambda a, b: a > b, ast.GtE: lambda a, b: a >= b,
+        ast.Is: lambda a, b: a is b, ast.IsNot: lambda a, b: a is not b, ast.In: lambda a, b: a in b,
+        ast.NotIn: lambda a, b: a not in b}
+_BUILTINS = {"min": min, "max": max, "abs": abs, "int": int, "len": len, "bool": bool, "divmod": divmod,
+             "tuple": tuple, "list": list, "sorted": sorted, "sum": sum}
+
+
+def _div_ceil(n, d):
+    return int((n // d) + (n % d != 0))
+
+
+# pyutil.mathutil (third-party, re-exported by allmydata.util.mathutil): modelled by its documented definitions
+_EXTERNAL = {"pyutil.mathutil.div_ceil": _div_ceil,
+             "pyutil.mathutil.next_multiple": lambda n, k: _div_ceil(n, k) * k,
+             "pyutil.mathutil.pad_size": lambda n, k: (k - n % k) if n % k else 0}
+
+
+_INLINE_CACHE = {}
+
+
+def _simple_helper(m):
+    if not isinstance(m.node, ast.FunctionDef) or m.node.decorator_list or len(m.node.body) > 12:
+        return False
+    for x in ast.walk(m.node):
+        if isinstance(x, (ast.For, ast.While, ast.Try, ast.With, ast.Yield, ast.YieldFrom, ast.Await, ast.Lambda,
+                          ast.AsyncFunctionDef, ast.ClassDef)) or (isinstance(x, ast.FunctionDef) and x is not m.node):
+            return False
+    return True
+
+
+class _Sim(object):
+    MAX_PATHS = 128
+    MAX_DEPTH = 3
+
+    def __init__(self, idx, observe=(), track=()):
+        self.idx = idx
+        self.folder = get_folder(idx)
+        self.observe = set(observe)      # call tails whose evaluated arguments are recorded, never inlined
+        self.track = set(track)          # self attributes whose stores make a helper method worth inlining
+        self.seen = []                   # [(FuncInfo, ast.Call, [args], {kwargs})]
+        self.depth = 0
+
+    # -- which helper methods are followed
+    def _inlined(self, ci):
+        key = (id(self.idx), ci.qual, frozenset(self.observe), frozenset(self.track))
+        if key in _INLINE_CACHE and _INLINE_CACHE[key][0] is self.idx:
+            return _INLINE_CACHE[key][1]
+        meths = {}
+        for c in ci.mro():
+            for nm, m in c.methods.items():
+                meths.setdefault(nm, m)
+        hit = set()
+        for nm, m in meths.items():
+            for x in func_own_nodes(m):
+                if isinstance(x, ast.Call) and call_tail(x) in self.observe:
+                    hit.add(nm)
+                if isinstance(x, ast.Attribute) and isinstance(x.ctx, ast.Store) and attr_path(x) in self.track:
+                    hit.add(nm)
+        changed = True
+        while changed:
+            changed = False
+            for nm, m in meths.items():
+                if nm in hit:
+                    continue
+                for x in func_own_nodes(m):
+                    if isinstance(x, ast.Call) and isinstance(x.func, ast.Attribute) \
+                            and attr_path(x.func.value) == "self" and x.func.attr in hit \
+                            and x.func.attr not in self.observe:
+                        hit.add(nm)
+                        changed = True
+                        break
+        res = {nm: meths[nm] for nm in hit if nm not in self.observe}
+        _INLINE_CACHE[key] = (self.idx, res)
+        return res
+
+    # -- expressions
+    def ev(self, fn, e, fr, hp):
+        try:
+            return self._ev(fn, e, fr, hp)
+        except (_Dead, AnalysisError):
+            raise
+        except Exception:
+            return UNK
+
+    def _ev(self, fn, e, fr, hp):
+        f = lambda x: self._ev(fn, x, fr, hp)
+        if isinstance(e, ast.Constant):
+            return e.value
+        if isinstance(e, ast.Name):
+            if e.id in fr:
+                return fr[e.id]
+            try:
+                return self.folder.name(e.id, fn.module, None)
+            except NotConstant:
+                return UNK
+        if isinstance(e, ast.Attribute):
+            b = self.ev(fn, e.value, fr, hp)
+            if isinstance(b, _Ref):
+                return hp[b.name].get(e.attr, UNK)
+            if b is UNK:
+                try:
+                    return self.folder.fold(e, fn.module, None)
+                except NotConstant:
+                    return UNK
+            return UNK
+        if isinstance(e, ast.Call):
+            return self._call(fn, e, fr, hp)
+        if isinstance(e, (ast.Tuple, ast.List)):
+            vals = [self.ev(fn, x, fr, hp) for x in e.elts]
+            return tuple(vals) if isinstance(e, ast.Tuple) else vals
+        if isinstance(e, ast.Subscript):
+            v = f(e.value)
+            if isinstance(e.slice, ast.Slice):
+                i = slice(*[(f(x) if x is not None else None) for x in (e.slice.lower, e.slice.upper, e.slice.step)])
+                if _has_unk([i.start, i.stop, i.step]):
+                    return UNK
+            else:
+                i = f(e.slice)
+            if v is UNK or i is UNK or isinstance(v, _Ref):
+                return UNK
+            return v[i]
+        if isinstance(e, ast.BinOp):
+            l, r = f(e.left), f(e.right)
+            if _has_unk(l) or _has_unk(r) or type(e.op) not in _BIN:
+                return UNK
+            return _BIN[type(e.op)](l, r)
+        if isinstance(e, ast.UnaryOp):
+            v = f(e.operand)
+            if v is UNK:
+                return UNK
+            if isinstance(e.op, ast.USub):
+                return -v
+            if isinstance(e.op, ast.UAdd):
+                return +v
+            if isinstance(e.op, ast.Not):
+                return not v
+            return UNK
+        if isinstance(e, ast.BoolOp):
+            res = None
+            for x in e.values:
+                res = f(x)
+                if res is UNK:
+                    return UNK
+                if isinstance(e.op, ast.And) and not res:
+                    return res
+                if isinstance(e.op, ast.Or) and res:
+                    return res
+            return res
+        if isinstance(e, ast.Compare):
+            l = f(e.left)
+            for op, rr in zip(e.ops, e.comparators):
+                r = f(rr)
+                if l is UNK or r is UNK:
+                    return UNK
+                if isinstance(op, (ast.Eq, ast.NotEq, ast.Lt, ast.LtE, ast.Gt, ast.GtE)) and (_has_unk(l) or _has_unk(r)):
+                    return UNK
+                if not _CMP[type(op)](l, r):
+                    return False
+                l = r
+            return True
+        if isinstance(e, ast.IfExp):
+            c = f(e.test)
+            if c is UNK:
+                return UNK
+            return f(e.body) if c else f(e.orelse)
+        return UNK
+
+    def _call(self, fn, e, fr, hp):
+        tail = call_tail(e)
+        if any(isinstance(a, ast.Starred) for a in e.args) or any(k.arg is None for k in e.keywords):
+            args, kwargs, star = [], {}, True
+        else:
+            args = [self.ev(fn, a, fr, hp) for a in e.args]
+            kwargs = {k.arg: self.ev(fn, k.value, fr, hp) for k in e.keywords}
+            star = False
+        if tail in self.observe:
+            self.seen.append((fn, e, args, kwargs))
+            return UNK
+        if star:
+            return UNK
+        if isinstance(e.func, ast.Attribute):
+            recv = self.ev(fn, e.func.value, fr, hp)
+            if isinstance(recv, _Ref):
+                mem = hp[recv.name]
+                if not args and not kwargs and (e.func.attr + "()") in mem:
+                    return mem[e.func.attr + "()"]
+                if recv.name == "self" and fn.cls is not None:
+                    m = self._inlined(fn.cls).get(e.func.attr)
+                    if m is not None:
+                        return self.call(m, recv, args, kwargs, hp)
+                    m = fn.cls.lookup(e.func.attr)
+                    if isinstance(m, FuncInfo) and _simple_helper(m):
+                        # a small straight-line helper (e.g. a formula hoisted into a method): follow it, give up quietly
+                        keep = copy.deepcopy(hp)
+                        try:
+                            return self.call(m, recv, args, kwargs, hp)
+                        except AnalysisError:
+                            hp.clear()
+                            hp.update(keep)
+                            return UNK
+                return UNK
+            if recv is not UNK:
+                return UNK
+        if isinstance(e.func, ast.Name) and e.func.id in _BUILTINS and e.func.id not in fr:
+            if _has_unk(args) or kwargs:
+                return UNK
+            return _BUILTINS[e.func.id](*args)
+        ext = self._external(fn, e.func)
+        if ext is not None:
+            if _has_unk(args) or kwargs:
+                return UNK
+            return ext(*args)
+        target = self.idx.resolve_expr(fn.module, e.func) if isinstance(e.func, (ast.Name, ast.Attribute)) else None
+        if isinstance(target, FuncInfo) and not kwargs and not _has_unk(args) \
+                and not any(isinstance(a, _Ref) for a in args):
+            from sa.tables import ConstEval
+            try:
+                return ConstEval(self.folder, target.module).call(target, args, {})
+            except NotConstant:
+                return UNK
+        return UNK
+
+    def _external(self, fn, f):
+        """Model of a third-party arithmetic helper the package re-exports (pyutil.mathutil), by import target."""
+        m, name = fn.module, None
+        if isinstance(f, ast.Attribute) and isinstance(f.value, ast.Name):
+            mod = self.idx.resolve_expr(fn.module, f.value)
+            if not hasattr(mod, "imports"):
+                return None
+            m, name = mod, f.attr
+        elif isinstance(f, ast.Name):
+            name = f.id
+        if name is None:
+            return None
+        for _hop in range(4):
+            tgt = m.imports.get(name)
+            if tgt is None:
+                return None
+            if tgt in _EXTERNAL:
+                return _EXTERNAL[tgt]
+            modname, _, name = tgt.rpartition(".")
+            m = self.idx.modules.get(modname)
+            if m is None:
+                return None
+        return None
+
+    def call(self, m, selfref, args, kwargs, hp):
+        """Follow a helper method of the same class on the same heap."""
+        if self.depth >= self.MAX_DEPTH:
+            raise AnalysisError("helper-method nesting deeper than %d while evaluating %s" % (self.MAX_DEPTH, short(m)))
+        a = m.node.args
+        names = [x.arg for x in a.args]
+        if a.vararg or a.kwarg or not names:
+            raise AnalysisError("cannot bind the arguments of %s" % short(m))
+        fr = {names[0]: selfref}
+        defaults = list(a.defaults)
+        for i, nm in enumerate(names[1:], 1):
+            if i - 1 < len(args):
+                fr[nm] = args[i - 1]
+            elif nm in kwargs:
+                fr[nm] = kwargs[nm]
+            else:
+                di = i - (len(names) - len(defaults))
+                fr[nm] = self.ev(m, defaults[di], {}, hp) if di >= 0 else UNK
+        self.depth += 1
+        try:
+            outs = self.run(m, fr, hp)
+        finally:
+            self.depth -= 1
+        if not outs:
+            raise _Dead()
+        if len(outs) > 1:
+            raise AnalysisError("%s completes on %d paths for one concrete input" % (short(m), len(outs)))
+        ret, _fr, hp2 = outs[0]
+        if hp2 is not hp:
+            hp.clear()
+            hp.update(hp2)
+        return ret
+
+    # -- statements
+    def store(self, fn, t, v, fr, hp):
+        if isinstance(t, ast.Name):
+            fr[t.id] = v
+        elif isinstance(t, ast.Attribute):
+            b = self.ev(fn, t.value, fr, hp)
+            if isinstance(b, _Ref):
+                hp[b.name][t.attr] = v
+        elif isinstance(t, (ast.Tuple, ast.List)):
+            if isinstance(v, (tuple, list)) and len(v) == len(t.elts) and not any(isinstance(x, ast.Starred) for x in t.elts):
+                for x, y in zip(t.elts, v):
+                    self.store(fn, x, y, fr, hp)
+            else:
+                for x in t.elts:
+                    self.store(fn, x.value if isinstance(x, ast.Starred) else x, UNK, fr, hp)
+        elif isinstance(t, ast.Subscript):
+            self.store(fn, t.value, UNK, fr, hp)      # an element store makes the container unknown
+
+    def exec_stmt(self, fn, st, fr, hp):
+        if isinstance(st, ast.Assign):
+            v = self.ev(fn, st.value, fr, hp)
+            for t in st.targets:
+                self.store(fn, t, v, fr, hp)
+        elif isinstance(st, ast.AnnAssign):
+            if st.value is not None:
+                self.store(fn, st.target, self.ev(fn, st.value, fr, hp), fr, hp)
+        elif isinstance(st, ast.AugAssign):
+            load = copy.deepcopy(st.target)
+            for x in ast.walk(load):
+                if hasattr(x, "ctx"):
+                    x.ctx = ast.Load()
+            cur, v = self.ev(fn, load, fr, hp), self.ev(fn, st.value, fr, hp)
+            res = UNK
+            if not _has_unk(cur) and not _has_unk(v) and type(st.op) in _BIN:
+                try:
+                    res = _BIN[type(st.op)](cur, v)
+                except Exception:
+                    res = UNK
+            self.store(fn, st.target, res, fr, hp)
+        elif isinstance(st, ast.Expr):
+            self.ev(fn, st.value, fr, hp)
+        elif isinstance(st, ast.Return):
+            fr["<return>"] = self.ev(fn, st.value, fr, hp) if st.value is not None else None
+        elif isinstance(st, ast.Raise):
+            raise _Dead()
+        elif isinstance(st, (ast.FunctionDef, ast.AsyncFunctionDef, ast.ClassDef)):
+            fr[st.name] = UNK
+        elif isinstance(st, ast.Delete):
+            for t in st.targets:
+                self.store(fn, t, UNK, fr, hp)
+        elif isinstance(st, (ast.Pass, ast.Global, ast.Nonlocal, ast.Import, ast.ImportFrom, ast.Break, ast.Continue)):
+            pass
+        else:
+            raise AnalysisError("cannot evaluate a %s statement of %s" % (type(st).__name__, short(fn)))
+
+    def run(self, fn, frame, heap):
+        """Every normally completing path of fn for this concrete input: [(return value, frame, heap)]."""
+        cfg = fn.cfg()
+        out, forks = [], 0
+        work = [(cfg.entry, frame, heap)]
+        while work:
+            node, fr, hp = work.pop()
+            steps = 0
+            while node is not None:
+                steps += 1
+                if steps > 4 * len(cfg.nodes) + 16:
+                    raise AnalysisError("evaluation of %s does not terminate" % short(fn))
+                if node is cfg.exit:
+                    out.append((fr.get("<return>"), fr, hp))
+                    break
+                if node is cfg.raise_exit or node.kind == "except":
+                    break
+                if node.kind == "iter":
+                    raise AnalysisError("%s loops; its segment arithmetic cannot be evaluated" % short(fn))
+                nxt = [(cfg.nodes[d], lab) for (d, lab) in cfg.succ[node.id] if lab != "exc"]
+                if node.kind == "test":
+                    v = self.ev(fn, node.ast, fr, hp)
+                    if v is UNK:
+                        forks += 1
+                        if forks > self.MAX_PATHS:
+                            raise AnalysisError("too many undetermined branches in %s" % short(fn))
+                        for (d, lab) in nxt[1:]:
+                            work.append((d, copy.deepcopy(fr), copy.deepcopy(hp)))
+                        node = nxt[0][0] if nxt else None
+                        continue
+                    want = "T" if v else "F"
+                    nxt = [(d, lab) for (d, lab) in nxt if isinstance(lab, tuple) and lab[0] == want]
+                elif node.kind == "stmt":
+                    try:
+                        self.exec_stmt(fn, node.ast, fr, hp)
+                    except _Dead:
+                        break
+                if not nxt:
+                    break
+                for (d, lab) in nxt[1:]:
+                    work.append((d, copy.deepcopy(fr), copy.deepcopy(hp)))
+                node = nxt[0][0]
+        return out
